@@ -104,6 +104,7 @@ EmitEdge  == PrintT(<<"EDGE", ToJson([from |-> HistId(hist), act |-> ActJ(act', 
 (* in-model theorems *)
 Dims == 0..MaxDim
 InvFlags == IsComplex(live) /\ \A k \in Dims : FlagOK(live, k, flag[k])
+InvBd == \A k \in Dims : \A c \in SUBSET CellsAt(live, k) : BdSet(live, c) = BdSetDef(live, c)
 (* every insertion or removal is the birth or the death of exactly one class;  *)
 (* the open intervals of dimension k are as many as the Betti number           *)
 InvCount ==
